@@ -73,7 +73,7 @@ func (r *FeatureLocal) AddFunctionType(function model.FunctionType, read, write 
 	if r.role != model.RoleTypeServer && r.role != model.RoleTypeSpecial {
 		return
 	}
-	if r.operations[function] != nil {
+	if r.Operations()[function] != nil {
 		return
 	}
 	writePartial := false
@@ -84,7 +84,13 @@ func (r *FeatureLocal) AddFunctionType(function model.FunctionType, read, write 
 		}
 	}
 	// partial reads are currently not supported!
+	r.muxOperations.Lock()
+	if r.operations[function] != nil {
+		r.muxOperations.Unlock()
+		return
+	}
 	r.operations[function] = NewOperations(read, false, write, writePartial)
+	r.muxOperations.Unlock()
 
 	if r.role == model.RoleTypeServer &&
 		r.ftype == model.FeatureTypeTypeDeviceDiagnosis &&
@@ -97,7 +103,7 @@ func (r *FeatureLocal) AddFunctionType(function model.FunctionType, read, write 
 func (r *FeatureLocal) Functions() []model.FunctionType {
 	var fcts []model.FunctionType
 
-	for key := range r.operations {
+	for key := range r.Operations() {
 		fcts = append(fcts, key)
 	}
 
@@ -853,7 +859,7 @@ func (r *FeatureLocal) functionData(function model.FunctionType) api.FunctionDat
 
 func (r *FeatureLocal) Information() *model.NodeManagementDetailedDiscoveryFeatureInformationType {
 	var funs []model.FunctionPropertyType
-	for fun, operations := range r.operations {
+	for fun, operations := range r.Operations() {
 		var functionType = model.FunctionType(fun)
 		sf := model.FunctionPropertyType{
 			Function:           &functionType,
